@@ -69,6 +69,10 @@ ASSUMPTIONS = [
     "names are not part of the property (number and order are): a main-graph input/output renamed by OutputFixPass "
     "(which has to separate two values that shared one name) is exempt, by any other pass it is a failure",
     "DeduplicateHashedInitializersPass = DeduplicateInitializersPass assuming no SHA-512 collision",
+    "instance-reuse stream: one object of every pass (27 variants) and of three Sequential/PassManager chains per "
+    "worker is applied to all models of the worker in turn, including pairs of models that define local::F with the "
+    "same identifier but a different call structure; its serialized result must equal that of a fresh object "
+    "(reuse_checks / reuse_twin_pairs in the distribution)",
     "TopologicalSortPass: identity on valid (sorted) models by stability (C12); the permutation theorem is exercised "
     "on shuffled variants of every generated model",
 ]
@@ -1119,6 +1123,32 @@ class _Gen:
         if sc.kind == "main":
             self.prefer_out += [o1, o2]
 
+    def a_const_dtype_twins(self, sc):
+        """two small `value` Constants with the same shape and the same raw bytes but different element types
+        (float32/int32, int32/uint32, bool/uint8, int64/double), both consumed through Cast(to=FLOAT): a CSE key
+        that ignores the tensor dtype merges them and the second Cast reads the wrong type"""
+        r = self.rng
+        self.feat.add("const_dtype_twins")
+        t1, t2, width = r.choice([(TP.FLOAT, TP.INT32, 4), (TP.INT32, TP.UINT32, 4), (TP.BOOL, TP.UINT8, 1),
+                                  (TP.INT64, TP.DOUBLE, 8), (TP.FLOAT, TP.UINT32, 4)])
+        if width == 1:
+            raw = bytes(r.choice([0, 1]) for _ in range(3))
+        else:
+            raw = b"".join(int(r.choice([0, 1, 2, 3, 1065353216 if width == 4 else 1])).to_bytes(width, "little")
+                           for _ in range(3))
+        outs = []
+        for et in (t1, t2):
+            c = self.fresh()
+            node = oh.make_node("Constant", [], [c], value=TP(name=self.fresh("t"), data_type=et, dims=[3], raw_data=raw))
+            node.name = self.fresh("n")
+            sc.recs.append({"node": node, "outs": [], "cf": True})
+            self.total_nodes += 1
+            outs.append(self.emit(sc, "Cast", [c], ["F3"], {"to": TP.FLOAT})[0])
+        if sc.kind == "main":
+            self.prefer_out += outs
+        else:
+            self.emit(sc, "Add", outs, ["F3"])
+
     def a_nan_const(self, sc):
         r = self.rng
         self.feat.add("nan_const")
@@ -1508,7 +1538,7 @@ class _Gen:
     # ---- dispatcher
     _WEIGHTS = [
         ("ew", 30), ("identity", 12), ("dup", 12), ("dup_attr", 4), ("dup_nout", 3), ("const", 9), ("const_dup", 5),
-        ("signed_zero", 0.8), ("nan_const", 1.5), ("init", 16), ("optional", 5),
+        ("signed_zero", 0.8), ("const_dtype_twins", 1.2), ("nan_const", 1.5), ("init", 16), ("optional", 5),
         ("bn_training", 0.5), ("random", 2.5), ("dead", 5), ("if", 5), ("loop", 3.5), ("call", 7),
     ]
 
@@ -2597,6 +2627,139 @@ def _size(rng: random.Random) -> int:
     return rng.choice([3, 4, 5, 6, 8, 10, 12, 15, 18, 21, 25])
 
 
+# ---- stream "instance reuse": a pass object (and a Sequential / PassManager built from pass objects) must behave
+# the same on its n-th model as a fresh object: the same instance is applied to every model of a worker in turn,
+# including pairs of models that define a function with the SAME identifier but a different call structure, and the
+# serialized result is compared with the result of a fresh instance on a private copy of the same model.
+
+_REUSED: dict[str, object] = {}
+_REUSE_CHAINS = {
+    "Sequential(RemoveUnusedNodes,RemoveUnusedFunctions,RemoveUnusedOpsets)":
+        ("seq", ["RemoveUnusedNodesPass", "RemoveUnusedFunctionsPass", "RemoveUnusedOpsetsPass"]),
+    "Sequential(Inline,RemoveUnusedFunctions)": ("seq", ["InlinePass", "RemoveUnusedFunctionsPass"]),
+    "PassManager(IdentityElimination,CSE,RemoveUnusedNodes,RemoveUnusedFunctions;steps=2,early_stop)":
+        ("pm", ["IdentityEliminationPass", "CommonSubexpressionEliminationPass", "RemoveUnusedNodesPass",
+                "RemoveUnusedFunctionsPass"]),
+}
+
+
+def _make_instance(name: str):
+    import onnx_ir as ir
+
+    if name in _REUSE_CHAINS:
+        kind, names = _REUSE_CHAINS[name]
+        passes = [PASSES[n]() for n in names]
+        if kind == "seq":
+            return ir.passes.Sequential(*passes)
+        return ir.passes.PassManager(passes, steps=2, early_stop=True)
+    return PASSES[name]()
+
+
+def _apply_bytes(inst, raw: bytes) -> tuple:
+    import onnx_ir as ir
+
+    try:
+        model = ir.serde.deserialize_model(_parse(raw))
+        res = inst(model)
+        return ("ok", ir.serde.serialize_model(res.model).SerializeToString(), bool(res.modified))
+    except Exception as e:  # noqa: BLE001
+        return ("raised", type(e).__name__, None)
+
+
+def _fn_twin_pair(rng: random.Random) -> tuple[bytes, bytes]:
+    """two checker-valid models that define local::F (same identifier): in the first F is a leaf and no function is
+    unused, in the second F calls the helper local::H (sometimes H calls local::G)"""
+    ops = ["Abs", "Neg", "Relu", "Exp", "Tanh", "Sigmoid"]
+    imp = [oh.make_opsetid("", 18), oh.make_opsetid("local", 1)]
+    vi = oh.make_tensor_value_info
+
+    def model(funcs, extra_main=()):
+        g = oh.make_graph([oh.make_node("F", ["x"], ["y"], domain="local"), *extra_main], "g", [vi("x", _F, [3])],
+                          [vi("y", _F, [3])])
+        m = oh.make_model(g, opset_imports=imp, ir_version=10, functions=funcs)
+        onnx.checker.check_model(m)
+        return m.SerializeToString()
+
+    f_leaf = oh.make_function("local", "F", ["a"], ["b"], [oh.make_node(rng.choice(ops), ["a"], ["b"])], imp[:1])
+    deep = rng.random() < 0.4
+    h_body = [oh.make_node("G", ["a"], ["b"], domain="local")] if deep else [oh.make_node(rng.choice(ops), ["a"], ["b"])]
+    h = oh.make_function("local", "H", ["a"], ["b"], h_body, imp if deep else imp[:1])
+    gfn = oh.make_function("local", "G", ["a"], ["b"], [oh.make_node(rng.choice(ops), ["a"], ["b"])], imp[:1])
+    f_call = oh.make_function("local", "F", ["a"], ["b"], [oh.make_node("H", ["a"], ["c"], domain="local"),
+                                                             oh.make_node(rng.choice(ops), ["c"], ["b"])], imp)
+    first = model([f_leaf])
+    second = model([f_call, h] + ([gfn] if deep else []))
+    return first, second
+
+
+_REUSE_HISTORY: list[bytes] = []  # the last models seen by the reused instances of this worker
+_REUSE_HISTORY_LEN = 6
+
+
+def _first_text_diff(a: bytes, b: bytes) -> str:
+    try:
+        ta, tb = onnx.printer.to_text(_parse(a)).split("\n"), onnx.printer.to_text(_parse(b)).split("\n")
+        for x, y in zip(ta, tb):
+            if x != y:
+                return f"{x.strip()[:160]} | {y.strip()[:160]}"
+        return f"{len(ta)} vs {len(tb)} lines" if len(ta) != len(tb) else "same text, different bytes"
+    except Exception as e:  # noqa: BLE001
+        return f"(no text diff: {type(e).__name__})"
+
+
+def _reuse_check(part, raw: bytes, prev_raw: bytes | None, origin) -> None:
+    history = list(_REUSE_HISTORY)
+    for name in [*sorted(PASSES.keys()), *_REUSE_CHAINS]:
+        inst = _REUSED.get(name)
+        if inst is None:
+            inst = _REUSED[name] = _make_instance(name)
+        got = _apply_bytes(inst, raw)
+        want = _apply_bytes(_make_instance(name), raw)
+        part.count("reuse_checks")
+        if got == want:
+            continue
+        # confirm: a fresh instance that sees the same recent history must show the same deviation (state kept
+        # between runs is deterministic); otherwise the two results differ for another reason
+        probe = _make_instance(name)
+        for h in history:
+            _apply_bytes(probe, h)
+        again = _apply_bytes(probe, raw)
+        want2 = _apply_bytes(_make_instance(name), raw)
+        if again == want or want2 != want:
+            part.count("reuse_unconfirmed:" + name)
+            if len(part["samples"]) < 2:
+                part["samples"].append({"reuse_unconfirmed": name, "origin": origin, "fresh_equal_fresh": want2 == want,
+                                        "status": [got[0], want[0]],
+                                        "diff": _first_text_diff(got[1], want[1]) if got[0] == want[0] == "ok" else ""})
+            continue
+        part.count("reuse_differs:" + name)
+        sig = f"instance-state:{_base_name(name)}:reused-instance-differs-from-fresh"
+        if not any(f["signature"] == sig for f in part["failures"]) and len(part["failures"]) < 40:
+            part["failures"].append({
+                "signature": sig,
+                "what": f"{name}: after the models it was applied to before, the same pass object gives a different "
+                        f"result than a fresh object on the same model ({again[0]}/{again[2]} vs {want[0]}/{want[2]}): "
+                        f"{_first_text_diff(again[1], want[1]) if again[0] == want[0] == 'ok' else ''}",
+                "case": {"kind": "instance-state", "pass": name, "origin": origin,
+                         "history_b64": [base64.b64encode(h).decode() for h in history],
+                         "model_b64": base64.b64encode(raw).decode(), "seq": [name]},
+            })
+    _REUSE_HISTORY.append(raw)
+    del _REUSE_HISTORY[:-_REUSE_HISTORY_LEN]
+
+
+def _replay_instance_state(part, case: dict) -> None:
+    name = case["pass"]
+    inst = _make_instance(name)
+    for h in case.get("history_b64") or []:
+        _apply_bytes(inst, base64.b64decode(h))
+    raw = base64.b64decode(case["model_b64"])
+    got, want = _apply_bytes(inst, raw), _apply_bytes(_make_instance(name), raw)
+    if got != want:
+        part["failures"].append({"signature": f"instance-state:{_base_name(name)}:reused-instance-differs-from-fresh",
+                                 "what": f"{name}: reused instance differs from a fresh one", "case": case})
+
+
 def _work(chunk: tuple) -> dict:
     seed, index, n_models = chunk
     _quiet()
@@ -2605,7 +2768,16 @@ def _work(chunk: tuple) -> dict:
     rng = random.Random(f"C05:{seed}:{index}")
     part = Part()
     state: dict = {}
+    prev_raw: bytes | None = None
+    twin_rng = random.Random(f"C05:twins:{seed}:{index}")
     for mi in range(n_models):
+        if mi % 8 == 0:
+            # function-identifier twins through the reused instances (see _fn_twin_pair)
+            a_raw, b_raw = _fn_twin_pair(twin_rng)
+            part.count("reuse_twin_pairs")
+            _reuse_check(part, a_raw, prev_raw, {"seed": seed, "chunk": index, "twin": mi, "which": "first"})
+            _reuse_check(part, b_raw, a_raw, {"seed": seed, "chunk": index, "twin": mi, "which": "second"})
+            prev_raw = b_raw
         try:
             proto, info = gen_model_ex(rng, _size(rng))
         except Exception as e:  # noqa: BLE001 - generator bug: visible in the histogram, never a finding
@@ -2624,6 +2796,8 @@ def _work(chunk: tuple) -> dict:
             continue
         for f in info["features"]:
             part.count("feat:" + f)
+        _reuse_check(part, raw, prev_raw, {"seed": seed, "chunk": index, "model": mi, "sha1": sha})
+        prev_raw = raw
         nfeat = _bucket(len(info["features"]), (5, 10, 15, 20, 30))
         for seq in seqs:
             case_id = {"seed": seed, "chunk": index, "model": mi, "sha1": sha, "seq": seq, "features": info["features"]}
@@ -2691,7 +2865,10 @@ def replay(ctx: Ctx, obj: dict) -> None:
     _quiet()
     case = obj.get("case", obj)
     part = Part()
-    _replay_case(part, case, {}, minimise=False)
+    if case.get("kind") == "instance-state":
+        _replay_instance_state(part, case)
+    else:
+        _replay_case(part, case, {}, minimise=False)
     ctx.merge(part)
 
 
